@@ -115,6 +115,8 @@ def _ct_post(c):
     for f in ('_state', '_exception', '_result', '$cancel_req', '$created_vt', '_job', '$wjob', '$twin', '$sd_of'):
         out.append(unchanged_field(pre, cur, f, lambda o: o == t))
     out.append(unchanged_field(pre, cur, '_task', lambda o: o == c.a.job))
+    o_ = q()
+    out.append(ForAll([o_], Implies(And(Not(pre.alive(o_)), cur.alive(o_)), o_ == t), patterns=[cur.alive(o_)]))
     return And(out)
 
 
@@ -163,6 +165,8 @@ c.ensures('no-element-left-pending', lambda c: none_pending(c.cur, c.pre.elems(c
           props=['C11', 'C05', 'C08', 'C09'])
 c.ensures('every-pending-element-cancelled-at-once', _tidy_cancelled_all, props=['C05', 'C08', 'C09'])
 c.ensures('frame[elems]', lambda c: old_sets_unchanged(c.pre, c.cur))
+c.ensures('creates-no-task', lambda c: allocates_only(c.pre, c.cur, 'set', 'CancelledError'))
+c.raises('CancelledError', 'creates-no-task', lambda c: allocates_only(c.pre, c.cur, 'set', 'CancelledError'))
 c.raises('CancelledError', 'no-element-left-pending', lambda c: none_pending(c.cur, c.pre.elems(c.a.pending)),
          props=['C11'])
 c.raises('CancelledError', 'every-pending-element-cancelled-at-once', _tidy_cancelled_all, props=['C05', 'C08', 'C09'])
@@ -202,6 +206,7 @@ def _tidy_loop1(c):
         ('remembered-cancellation', Or(canc == NONE, isa['CancelledError'](canc))),
         ('frame[elems]', old_sets_unchanged(c.pre, c.cur)),
         ('clock-monotone', vt(c.cur) >= vt(c.pre)),
+        ('creates-no-task', allocates_only(c.pre, c.cur, 'set', 'CancelledError')),
     ]
 
 
@@ -211,7 +216,7 @@ def _cl(fn, labels, key):
 
 c.loop(0, inv=_cl(_tidy_loop0, ['visited-cancelled', 'clock-still', 'states-still', 'unvisited-untouched'], 't0'))
 c.loop(1, inv=_cl(_tidy_loop1, ['all-cancel-requested', 'pending-set-unchanged', 'remembered-cancellation',
-                                'frame[elems]', 'clock-monotone'], 't1'))
+                                'frame[elems]', 'clock-monotone', 'creates-no-task'], 't1'))
 
 
 # ---------------------------------------------------------------- _tidy_tasks_exception
@@ -230,6 +235,8 @@ c.ensures('zero-time', lambda c: vt(c.cur) == vt(c.pre), props=['C05', 'C06'])
 c.ensures('no-cancellation-requested', lambda c: And(c.cur.H('$cancel_req') == c.pre.H('$cancel_req'),
                                                      c.cur.H('$cancel_vt') == c.pre.H('$cancel_vt')))
 c.ensures('frame[elems]', lambda c: old_sets_unchanged(c.pre, c.cur))
+c.ensures('creates-no-task', lambda c: allocates_only(c.pre, c.cur, 'set', 'list', 'tuple', 'CancelledError'))
+c.raises('CancelledError', 'creates-no-task', lambda c: allocates_only(c.pre, c.cur, 'set', 'list', 'tuple', 'CancelledError'))
 c.raises('CancelledError', 'no-cancellation-requested', lambda c: And(
     c.cur.H('$cancel_req') == c.pre.H('$cancel_req'), c.cur.H('$cancel_vt') == c.pre.H('$cancel_vt')))
 c.raises('CancelledError', 'frame[elems]', lambda c: old_sets_unchanged(c.pre, c.cur))
@@ -307,9 +314,8 @@ def sched_rely(c):
                                        a.f('$cancel_vt', t) == b.f('$cancel_vt', t))),
                       patterns=[a.f('$cancel_req', t)]))
     # the window queue of this activation, if any, keeps its size bound
-    out.append(ForAll([o], Implies(b.alive(o), And(a.f('queue', o) == b.f('queue', o),
-                                                   a.f('$qmax', o) == b.f('$qmax', o))),
-                      patterns=[a.f('queue', o)]))
+    out.append(ForAll([o], Implies(b.alive(o), a.f('queue', o) == b.f('queue', o)), patterns=[a.f('queue', o)]))
+    out.append(ForAll([o], Implies(b.alive(o), a.f('$qmax', o) == b.f('$qmax', o)), patterns=[a.f('$qmax', o)]))
     return out
 
 
@@ -369,6 +375,15 @@ def _sd_result(c):
                    And(Or(c.result == TRUE, c.result == FALSE), (c.result == TRUE) == Not(any_cancelled)))
 
 
+def _sd_new_tasks(c):
+    t = q()
+    S = c.a.self
+    return ForAll([t], Implies(And(Not(c.pre.alive(t)), c.cur.alive(t), isa['Task'](t)),
+                               Not(member(c.pre, S, c.cur.f('$wjob', t)))), patterns=[c.cur.f('$wjob', t)])
+
+
+c.ensures('new-tasks-run-no-member-body', _sd_new_tasks)
+c.raises('CancelledError', 'new-tasks-run-no-member-body', _sd_new_tasks)
 c.ensures('a-later-call-sends-nothing-and-returns-True', _sd_once, props=['C13'])
 c.ensures('one-shutdown-task-per-member', _sd_each_member_once, props=['C13'])
 c.ensures('no-shutdown-task-left-pending', _sd_clean, props=['C13', 'C11'])
@@ -406,12 +421,15 @@ def _sd_loop(c):
         ('jobs-unchanged', And(c.cur.f('jobs', S) == c.pre.f('jobs', S),
                                c.cur.elems(c.cur.f('jobs', S)) == c.pre.elems(c.pre.f('jobs', S)))),
         ('clock-still', vt(c.cur) == vt(c.pre)),
+        ('new-tasks-run-no-member-body', ForAll([t], Implies(
+            And(Not(c.pre.alive(t)), c.cur.alive(t), isa['Task'](t)), c.cur.f('$wjob', t) == NONE),
+            patterns=[c.cur.f('$wjob', t)])),
     ]
 
 
 _SDL = ['visited-members-have-one-more', 'list-holds-fresh-shutdown-tasks-of-visited-members',
         'list-elements-distinct', 'no-cancellation-yet',
-        'list-fresh', 'did-shutdown-set', 'jobs-unchanged', 'clock-still']
+        'list-fresh', 'did-shutdown-set', 'jobs-unchanged', 'clock-still', 'new-tasks-run-no-member-body']
 c.loop(0, inv=_cl(_sd_loop, _SDL, 'sdl'))
 
 
@@ -432,3 +450,25 @@ def _sd_post_hints(c):
 
 REG_sd = __import__('pyvc.contracts_api', fromlist=['REG']).REG.get('PureScheduler.co_shutdown')
 REG_sd.post_hints = _sd_post_hints
+
+
+# ---------------------------------------------------------------- _reset_tasks
+c = contract('PureScheduler._reset_tasks', F).param('self').returns('none')
+c.for_props('C02', 'C14')
+c.requires('self-is-scheduler', lambda c: is_sched(c.a.self))
+c.modifies('_task')
+c.ensures('members-have-no-task', lambda c: (lambda j: ForAll([j], Implies(
+    member(c.pre, c.a.self, j), c.cur.f('_task', j) == NONE), patterns=[c.cur.f('_task', j)]))(q()))
+c.ensures('frame[_task]', lambda c: unchanged_field(c.pre, c.cur, '_task', lambda o: member(c.pre, c.a.self, o)))
+c.loop(0, inv=[
+    ('visited-have-no-task', lambda c: (lambda j: ForAll([j], Implies(
+        Select(c.visited, j), c.cur.f('_task', j) == NONE), patterns=[c.cur.f('_task', j)]))(q())),
+    ('others-untouched', lambda c: unchanged_field(c.pre, c.cur, '_task', lambda o: Select(c.visited, o))),
+])
+
+# ---------------------------------------------------------------- _set_sched_ids (contract assumed for now)
+c = contract('PureScheduler._set_sched_ids', None, kind='env').param('self').param('start', 'int', 1) \
+    .param('id_format', 'ref', None).returns('int')
+c.assumed = ['ASSUMED-CONTRACT PureScheduler._set_sched_ids: writes only _sched_id/_s_mark (and the generator ghost) of the '
+             'objects of the tree and does not raise on an acyclic closed tree (numbering is decided under C15/C20)']
+c.modifies('_sched_id', '_s_mark', '$ycount', '$ypos')
